@@ -4,19 +4,24 @@ From Coq Require Import List NArith ZArith Bool Arith.
 From VF Require Import Base.Sx PyVal.Val PyVal.Codec Merge.Merge.
 Import ListNotations.
 
-Definition src_desc := (res (dict * str) * option str)%type.   (* what a recording source answers *)
+Definition src_desc := (res (dict * str) * res (option str))%type.   (* what a recording source answers (or raises) *)
+(* one call pair (get_data, find_system) on a composite whose sources answer like this at that moment *)
+Record cstep := { st_srcs : list src_desc; st_sys : str; st_pd : dict; st_pv : str; st_fk : str; st_fv : val }.
+Definition ostep := (list call * res (dict * str) * list nat * res (option str))%type.
 
 Inductive case :=
 | CMerge (ml ms : bool) (a b : dict)
 | CChain (ml ms : bool) (ht : list (str * str)) (srcs : list src_desc)
          (sys : str) (pd : dict) (pv : str) (fk : str) (fv : val)
-| CAssoc (ml ms : bool) (a b c : dict).                         (* three trees, both groupings *)
+| CAssoc (ml ms : bool) (a b c : dict)                          (* three trees, both groupings *)
+| CHist (ml ms : bool) (ht : list (str * str)) (steps : list cstep).   (* ONE composite, sources change between calls *)
 
 Inductive obs :=
 | OMerge (r : res dict) (a' b' : dict)                         (* result, arguments afterwards *)
 | OChain (glog : list call) (gres : res (dict * str))          (* get_data: calls seen by the sources, result *)
-         (flog : list nat) (fres : option str)                 (* find_system: who was asked, result *)
-| OAssoc (l r : res dict).                                      (* merge (merge a b) c, merge a (merge b c) *)
+         (flog : list nat) (fres : res (option str))           (* find_system: who was asked, result or exception *)
+| OAssoc (l r : res dict)                                       (* merge (merge a b) c, merge a (merge b c) *)
+| OHist (os : list ostep).
 
 (* the hash as a table filled by the harness with the real _hash_str *)
 Definition table_H (t : list (str * str)) (s : str) : str :=
@@ -33,6 +38,13 @@ Definition run_model (c : case) : obs :=
       OChain glog gres flog fres
   | CAssoc ml ms a b c =>
       OAssoc (bind (merge ml ms a b) (fun m => merge ml ms m c)) (bind (merge ml ms b c) (fun m => merge ml ms a m))
+  | CHist ml ms ht steps =>
+      (* the composite keeps no state: every call is the call of a new composite over the sources as they answer now *)
+      OHist (map (fun st =>
+               let ss := map mk_source (st_srcs st) in
+               let (glog, gres) := comp_get (table_H ht) ml ms 0 ss (st_sys st) (st_pd st) (st_pv st) in
+               let (flog, fres) := comp_find 0 ss (st_fk st) (st_fv st) in
+               (glog, gres, flog, fres)) steps)
   end.
 
 (* ---------------------------------------------------------------- checker *)
@@ -75,16 +87,27 @@ Definition gres_eqb (r1 r2 : res (dict * str)) : bool :=
   end.
 Definition ostr_eqb (a b : option str) : bool :=
   match a, b with Some x, Some y => str_eqb x y | None, None => true | _, _ => false end.
+Definition fres_eqb (a b : res (option str)) : bool :=
+  match a, b with Ok x, Ok y => ostr_eqb x y | Err e, Err e' => exc_eqb e e' | _, _ => false end.
 
 Definition holds_chain ml ms ht (srcs : list src_desc) sys pd pv fk fv
-           (glog : list call) (gres : res (dict * str)) (flog : list nat) (fres : option str) : list string :=
+           (glog : list call) (gres : res (dict * str)) (flog : list nat) (fres : res (option str)) : list string :=
   let ss := map mk_source srcs in
   let Hh := table_H ht in
   (if gres_eqb gres (chain_state Hh ml ms sys pd pv ss) then [] else ["get_data_is_fold"%string]) ++
   (if list_eqb call_eqb glog (flat_map (call_at Hh ml ms 0 sys pd pv ss) (seq 0 (length ss)))
    then [] else ["source_arguments"%string]) ++
   (let (sl, sr) := find_spec 0 ss fk fv in
-   if list_eqb Nat.eqb flog sl && ostr_eqb fres sr then [] else ["find_first_non_none"%string]).
+   if list_eqb Nat.eqb flog sl && fres_eqb fres sr then [] else ["find_first_non_none"%string]).
+
+Fixpoint holds_hist ml ms ht (steps : list cstep) (os : list ostep) : list string :=
+  match steps, os with
+  | [], [] => []
+  | st :: sr, (glog, gres, flog, fres) :: orest =>
+      holds_chain ml ms ht (st_srcs st) (st_sys st) (st_pd st) (st_pv st) (st_fk st) (st_fv st) glog gres flog fres ++
+      holds_hist ml ms ht sr orest
+  | _, _ => ["observation_length"%string]
+  end.
 
 Definition res_same (r1 r2 : res dict) : bool :=
   match r1, r2 with
@@ -100,6 +123,7 @@ Definition holds_assoc (l r : res dict) : list string :=
 Definition holds (c : case) (o : obs) : list string :=
   match c, o with
   | CAssoc _ _ _ _ _, OAssoc l r => holds_assoc l r
+  | CHist ml ms ht steps, OHist os => holds_hist ml ms ht steps os
   | CMerge ml ms a b, OMerge r a' b' => holds_merge ml ms a b r a' b'
   | CChain ml ms ht srcs sys pd pv fk fv, OChain glog gres flog fres =>
       holds_chain ml ms ht srcs sys pd pv fk fv glog gres flog fres
@@ -110,6 +134,7 @@ Definition valid (c : case) : Prop :=
   match c with
   | CMerge _ _ a b => wf (VDict a) = true /\ wf (VDict b) = true
   | CChain _ _ _ _ _ _ _ _ _ => True
+  | CHist _ _ _ _ => True
   | CAssoc ml ms a b c =>
       (* the triple is one on which the model's two groupings agree (checked, not proved, for every generated triple) *)
       res_same (bind (merge ml ms a b) (fun m => merge ml ms m c)) (bind (merge ml ms b c) (fun m => merge ml ms a m)) = true
@@ -126,6 +151,14 @@ Definition gres_of_sx : sx -> option (res (dict * str)) :=
 Definition sx_of_ostr (o : option str) : sx := match o with Some s => L [B s] | None => L [] end.
 Definition ostr_of_sx (x : sx) : option (option str) :=
   match x with L [B s] => Some (Some s) | L [] => Some None | _ => None end.
+(* find_system answers: () None, (#s) an id, (code) the class of the exception raised *)
+Definition sx_of_fres (r : res (option str)) : sx :=
+  match r with Ok o => sx_of_ostr o | Err e => L [I (exc_code e)] end.
+Definition fres_of_sx (x : sx) : option (res (option str)) :=
+  match x with
+  | L [I c] => Some (Err (exc_of_code c))
+  | _ => option_map Ok (ostr_of_sx x)
+  end.
 Definition sx_of_call (c : call) : sx :=
   match c with (i, s, d, v) => L [sxNat i; B s; sx_of_dict d; B v] end.
 Definition call_of_sx (x : sx) : option call :=
@@ -139,8 +172,10 @@ Definition sx_of_obs (o : obs) : sx :=
   match o with
   | OMerge r a' b' => L [sx_of_res sx_of_dict r; sx_of_dict a'; sx_of_dict b']
   | OChain glog gres flog fres =>
-      L [L (map sx_of_call glog); sx_of_gres gres; L (map sxNat flog); sx_of_ostr fres]
+      L [L (map sx_of_call glog); sx_of_gres gres; L (map sxNat flog); sx_of_fres fres]
   | OAssoc l r => L [sx_of_res sx_of_dict l; sx_of_res sx_of_dict r]
+  | OHist os => L (map (fun o => match o with (glog, gres, flog, fres) =>
+                         L [L (map sx_of_call glog); sx_of_gres gres; L (map sxNat flog); sx_of_fres fres] end) os)
   end.
 Definition aobs_of_sx (x : sx) : option obs :=
   match x with
@@ -163,16 +198,35 @@ Definition obs_of_sx (merge_case : bool) (x : sx) : option obs :=
   else
     match x with
     | L [L glog; gres; flog; fres] =>
-        match omap' call_of_sx glog, gres_of_sx gres, asListOf asNat flog, ostr_of_sx fres with
+        match omap' call_of_sx glog, gres_of_sx gres, asListOf asNat flog, fres_of_sx fres with
         | Some g, Some r, Some f, Some fr => Some (OChain g r f fr)
         | _, _, _, _ => None
         end
     | _ => None
     end.
+Definition ostep_of_sx (x : sx) : option ostep :=
+  match x with
+  | L [L glog; gres; flog; fres] =>
+      match omap' call_of_sx glog, gres_of_sx gres, asListOf asNat flog, fres_of_sx fres with
+      | Some g, Some r, Some f, Some fr => Some (g, r, f, fr)
+      | _, _, _, _ => None
+      end
+  | _ => None
+  end.
 
 Definition src_of_sx (x : sx) : option src_desc :=
   match x with
-  | L [r; f] => match gres_of_sx r, ostr_of_sx f with Some r', Some f' => Some (r', f') | _, _ => None end
+  | L [r; f] => match gres_of_sx r, fres_of_sx f with Some r', Some f' => Some (r', f') | _, _ => None end
+  | _ => None
+  end.
+Definition cstep_of_sx (x : sx) : option cstep :=
+  match x with
+  | L [L srcs; B sys; pd; B pv; B fk; fv] =>
+      match omap' src_of_sx srcs, dict_of_sx pd, val_of_sx fv with
+      | Some ss, Some pd', Some fv' =>
+          Some {| st_srcs := ss; st_sys := sys; st_pd := pd'; st_pv := pv; st_fk := fk; st_fv := fv' |}
+      | _, _, _ => None
+      end
   | _ => None
   end.
 Definition pair_of_sx (x : sx) : option (str * str) :=
@@ -183,6 +237,11 @@ Definition decode (x : sx) : option (case * obs) :=
   | L [I 0%Z; ml; ms; a; b; io] =>
       match asBool ml, asBool ms, dict_of_sx a, dict_of_sx b, obs_of_sx true io with
       | Some ml', Some ms', Some a', Some b', Some o => Some (CMerge ml' ms' a' b', o)
+      | _, _, _, _, _ => None
+      end
+  | L [I 3%Z; ml; ms; L ht; L steps; L io] =>
+      match asBool ml, asBool ms, omap' pair_of_sx ht, omap' cstep_of_sx steps, omap' ostep_of_sx io with
+      | Some ml', Some ms', Some ht', Some st, Some o => Some (CHist ml' ms' ht' st, OHist o)
       | _, _, _, _, _ => None
       end
   | L [I 2%Z; ml; ms; a; b; c; io] =>
